@@ -330,6 +330,8 @@ class Parser:
             return ("break", line)
         if self.isid("while"):
             self.eat()
+            if self.isid("let"):
+                self.err("`while let` is outside the subset")
             c = self.expr(no_struct=True)
             return ("while", c, self.block(), line)
         if self.isid("loop"):
